@@ -33,6 +33,15 @@ var cfgs = []cfg{
 }
 
 func init() {
+	// C13: "the socket, its listener and its dialer carry on accepting and redialling" - a dial attempt
+	// that waits for a busy inproc accept loop while the listening socket goes away connects to the
+	// socket that listens on the address next
+	vexplore.Register("C13", func(tier string) []*vexplore.Scenario {
+		return []*vexplore.Scenario{{Name: "inproc-listener-restarts-while-a-dial-attempt-waits", Mode: "enum", Reset: kit.ResetGlobals, Body: InprocListenerRestarts, NeedCounters: []string{"reconnected-to-the-new-listener"}}}
+	})
+}
+
+func init() {
 	vexplore.Register("C14", func(tier string) []*vexplore.Scenario {
 		d := 5
 		if tier == "thorough" {
